@@ -7,15 +7,35 @@ def workload(chk):
     return qcheck.gen_workload(chk.rng, n_dbs, per, id_prefix="c01-", chk=chk)
 
 
+def wide_database(rng):
+    """one table with thousands of rows and wide key domains (every value recurs a few times): hash tables grow and are
+    re-hashed while they already hold groups, sorts need several runs, scans cross segment boundaries"""
+    n = rng.choice([2500, 4000, 7000])
+    dom = rng.choice([n // 3, n // 2, n])
+    cols = [("k", "int"), ("a0", "int"), ("b0", "text")]
+    rows = [(None if rng.random() < 0.02 else rng.randrange(dom), rng.randrange(7), None if rng.random() < 0.05 else f"s{rng.randrange(dom // 2 + 1)}") for _ in range(n)]
+    return {"t0": (cols, rows)}
+
+
+WIDE_WEIGHTS = dict(join=0.0, subquery=0.0, corr=0.0, cte=0.15, derived=0.15, lateral=0.0, union=0.15, group=0.6, agg=0.5, distinct=0.35, where=0.5, order=0.4, limit=0.2)
+
+
+def wide_workload(chk):
+    thorough = chk.tier == "thorough"
+    ex = lambda rng, d: {"kind": "det", "policy": "random", "seed": rng.randint(0, 1 << 30), "yield_p": 0.02, "partitions": rng.choice([1, 2, 4, 8])}
+    return qcheck.gen_workload(chk.rng, 24 if thorough else 6, 14, weights=WIDE_WEIGHTS, max_depth=2, exec_fn=ex, id_prefix="c01w-", chk=chk, db_fn=wide_database)
+
+
 def run(chk):
     thorough = chk.tier == "thorough"
     chk.rule = ("random databases (1-4 tables, NULL density/skew/duplicates/empty tables) x type-directed random composed queries "
-                "(joins, grouping sets, DISTINCT, UNION, ORDER BY/LIMIT, CTEs, derived tables, scalar/EXISTS/IN/ANY/ALL subqueries); "
+                "(joins, grouping sets, DISTINCT, UNION, ORDER BY/LIMIT, CTEs, derived tables, scalar/EXISTS/IN/ANY/ALL subqueries), plus a few "
+                "single-table databases of 2500-7000 rows with wide key domains (thousands of groups, every key recurring) under grouping/DISTINCT/ORDER BY/UNION queries; "
                 "oracle = naive reference interpreter on the same AST; distinct non-trivial = distinct (feature-tag set, database) "
                 "pairs whose result was compared (model gave a definite answer) and was non-empty or empty by a declared rule")
     chk.assumptions = ["the reference interpreter vf/refsql.py (cross-checked against SQLite on the dialect-neutral subset by ./check setup)",
                        "generated integers stay small so that no arithmetic overflow is involved (C12 covers that)"]
-    work = workload(chk)
+    work = workload(chk) + wide_workload(chk)
     from vf import knowncases
     knowncases.run_known_cases(chk)
     tags_hist = {}
